@@ -63,8 +63,8 @@ def all_specs(script: dict) -> Dict[str, dict]:
                         out[e["id"]] = dict(e, task=t["name"], source=i, label=True, foreign=t.get("foreign", False),
                                             task_labels=t.get("labels") or {})
     for op in script.get("ops", []):
-        if op["op"] == "add":
-            out[op["sched"]["id"]] = dict(op["sched"], source=op["source"], label=False, added_at=op["at_us"])
+        if op["op"] in ("add", "create"):
+            out[op["sched"]["id"]] = dict(op["sched"], source=op["source"], label=False, added_at=op["at_us"], created=(op["op"] == "create"))
     return out
 
 
